@@ -224,10 +224,47 @@ class Real:
         self.db = Database(':memory:')        # never opened: tx_to_row / txo_to_row only read self.ledger
         self.db.ledger = Ledger               # hash160_to_address / hash160_to_script_address are classmethods
         self.tpl = {}
-        for t in list(S.OutputScript.templates) + list(S.InputScript.templates) + \
-                [S.InputScript.TIME_LOCK_SCRIPT, S.InputScript.MULTI_SIG_SCRIPT]:
+        self.real_templates = list(S.OutputScript.templates) + list(S.InputScript.templates) + \
+            [S.InputScript.TIME_LOCK_SCRIPT, S.InputScript.MULTI_SIG_SCRIPT]
+        for t in self.real_templates:
             self.tpl[t.name] = t
+        self.alias = {}           # the code's template name -> the specification's, where they differ (see bind_by_structure)
         self.pay = S.OutputScript.pay_pubkey_hash(b'\x07' * 20)
+
+    def signature(self, t):
+        """the opcode pattern of a real template, independent of how the template is called"""
+        S = self.S
+        kinds = {'PUSH_SINGLE': 'single', 'PUSH_INTEGER': 'integer', 'PUSH_MANY': 'many', 'PUSH_SUBSCRIPT': 'sub', 'SMALL_INTEGER': 'smallint'}
+        out = []
+        for o in t.opcodes:
+            if isinstance(o, int):
+                out.append(('op', o))
+            else:
+                out.append((kinds.get(type(o).__name__, type(o).__name__), o.name))
+        return tuple(out)
+
+    def bind_by_structure(self, tpls):
+        """The specification identifies a template by its opcode pattern; the NAME is only a label.  A template of the
+        specification that the code does not have under the same name is looked up by its pattern, and the code's name
+        for it is translated wherever the driver reads `template.name`.  Returns the templates that have no counterpart."""
+        def spec_sig(t):
+            return tuple(('op', op['v']) if op['k'] == 'op' else (op['k'], op['name']) for op in t['ops'])
+        taken = {t['name'] for t in tpls if t['name'] in self.tpl}
+        missing = []
+        for t in tpls:
+            if t['name'] in self.tpl:
+                continue
+            cands = [r for r in self.real_templates if r.name not in taken and self.signature(r) == spec_sig(t)]
+            if len(cands) == 1:
+                self.tpl[t['name']] = cands[0]
+                self.alias[cands[0].name] = t['name']
+                taken.add(cands[0].name)
+            else:
+                missing.append(t['name'])
+        return missing
+
+    def spec_name(self, name):
+        return self.alias.get(name, name)
 
     def cls(self, mode):
         return self.S.OutputScript if mode == 'out' else self.S.InputScript
@@ -253,7 +290,7 @@ class Real:
                     s = self.S.InputScript.from_source_with_template(src, self.S.InputScript.TIME_LOCK_SCRIPT)
                 else:
                     s = self.cls(mode)(src)
-                name = s.template.name
+                name = self.spec_name(s.template.name)
                 values = s.values
             return {'name': name, 'values': self.norm_values(values), 'script': s, 'exc': None}
         except Hang:
@@ -422,7 +459,7 @@ class Judge:
             self.n['inner'] += 1
             try:
                 sub = rp['script'].values['script']
-                iname, ivals = sub.template.name, real.norm_values(sub.values)
+                iname, ivals = real.spec_name(sub.template.name), real.norm_values(sub.values)
             except Exception as e:  # pylint: disable=broad-except
                 iname, ivals = 'none', {}
             if iname != inner['name']:
@@ -576,7 +613,9 @@ def drive(ctx, real, state, part, cases):
         preds = {t['name']: t['preds'] for t in tpls if t['table'] == 'out'}
         state['J'] = J = Judge(ctx, spec, real, preds)
         state['symtok'] = {i: (s['tok']['k'], s['tok']['v'], s['tok']['pl'], s['lay']) for i, s in syms.items()}
-        missing = [t['name'] for t in tpls if t['name'] not in real.tpl]
+        missing = real.bind_by_structure(tpls)
+        if real.alias:
+            print(f'NOTE: templates bound by opcode pattern, the code calls them differently: {real.alias}', flush=True)
         if missing:
             # a template of the specification that the code no longer has: its generate cases cannot be driven
             ctx.violation('template-missing:' + missing[0], f'templates {missing} do not exist in the code', {'missing': missing})
@@ -853,7 +892,7 @@ def gen_case(ctx, J, spec, real, c, instances):
         J.n['inner'] += 1
         try:
             sub = rp['script'].values['script']
-            iname, ivals = sub.template.name, real.norm_values(sub.values)
+            iname, ivals = real.spec_name(sub.template.name), real.norm_values(sub.values)
         except Exception as e:  # pylint: disable=broad-except
             iname, ivals = f'none ({type(e).__name__})', {}
         if iname != c['inner']['name'] or ivals != real.norm_values(values['script'].values):
